@@ -42,7 +42,9 @@ Lemma ystep_class content kind sb eb kids : denote_ystep content kind sb eb fals
            | Some t => match sq_scalar_inner t with Some s => if all_ytok kids then YDVal (YStr s) else YDBad | None => YDBad end
            | None => YDBad end
   | KWrap => match wrapped sb eb kids with Some v => YDVal v | None => YDBad end
-  | KMap fl => match ypairs_of kids with Some l => if ykeys_nodup (map fst l) then YDVal (YMap fl l) else YDBad | None => YDBad end
+  | KMap fl => match ypairs_of kids with
+               | Some l => if ykeys_nodup (map fst l) && pairs_kind (if fl then yk_flow_pair else yk_block_mapping_pair) kids then YDVal (YMap fl l) else YDBad
+               | None => YDBad end
   | KPair _ => ypair_of kids
   | KSeq fl => match yvals_of kids with Some l => YDVal (YSeq fl l) | None => YDBad end
   | KItem => match yvals_of kids with Some [v] => YDVal v | Some [] => YDVal YNull | _ => YDBad end
@@ -177,7 +179,7 @@ Proof.
   - destruct (slice content sb eb) as [t|]; [|discriminate]. destruct (dq_scalar_inner t); [|discriminate]. destruct (all_ytok (ykids_of content ch)); discriminate.
   - destruct (slice content sb eb) as [t|]; [|discriminate]. destruct (sq_scalar_inner t); [|discriminate]. destruct (all_ytok (ykids_of content ch)); discriminate.
   - destruct (wrapped sb eb (ykids_of content ch)); discriminate.
-  - destruct (ypairs_of (ykids_of content ch)) as [l|]; [|discriminate]. destruct (ykeys_nodup (map fst l)); discriminate.
+  - destruct (ypairs_of (ykids_of content ch)) as [l|]; [|discriminate]. destruct (ykeys_nodup (map fst l) && _); discriminate.
   - unfold ypair_of in H. destruct (ykids_of content ch) as [|[kn [[s0| |? ?|? ?]| | | |]] [|[cn [| | | |]] rest]]; try discriminate.
     destruct (_ && _); [|discriminate]. destruct (ypair_rest rest) as [[v|]|]; discriminate.
   - destruct (yvals_of (ykids_of content ch)); discriminate.
@@ -214,7 +216,7 @@ Proof.
     destruct (beq k yk_flow_node || beq k yk_block_node) eqn:E; [congruence|]. destruct (beq k yk_block_mapping || beq k yk_flow_mapping); [discriminate|].
     destruct (beq k yk_block_mapping_pair || beq k yk_flow_pair); [discriminate|]. destruct (beq k yk_block_sequence || beq k yk_flow_sequence); [discriminate|].
     destruct (beq k yk_block_sequence_item); [discriminate|]. destruct (beq k yk_document); [discriminate|]. destruct (beq k yk_stream); discriminate.
-  - destruct (ypairs_of (ykids_of content ch)) as [l|]; [|discriminate]. destruct (ykeys_nodup (map fst l)); discriminate.
+  - destruct (ypairs_of (ykids_of content ch)) as [l|]; [|discriminate]. destruct (ykeys_nodup (map fst l) && _); discriminate.
   - unfold ypair_of in H. destruct (ykids_of content ch) as [|[kn [[s0| |? ?|? ?]| | | |]] [|[cn [| | | |]] rest]]; try discriminate.
     destruct (_ && _); [|discriminate]. destruct (ypair_rest rest) as [[v|]|]; discriminate.
   - destruct (yvals_of (ykids_of content ch)); discriminate.
@@ -252,4 +254,650 @@ Proof.
   destruct (wrapped_inv _ _ _ _ _ Ew) as [pre [c0 [post [-> [_ [_ [Dc [Hnw [Hni [Hs He]]]]]]]]]].
   destruct (scalar_node _ _ _ Dc Hnw Hni) as [_ [_ [t [Ht Hr]]]]. exists t. split; [|exact Hr].
   unfold node_text in *. cbn [n_sb n_eb]. now rewrite <- Hs, <- He.
+Qed.
+
+(* ---------- what a node denotes tells its class ---------- *)
+Lemma yden_class content n :
+  match denote_ynode content n with
+  | YDTok => classify (n_kind n) = KTok
+  | YDVal v =>
+      match classify (n_kind n) with
+      | KPlain | KDq | KSq => exists s, v = YStr s
+      | KWrap | KItem => True
+      | KMap fl => exists l, v = YMap fl l
+      | KSeq fl => exists l, v = YSeq fl l
+      | _ => False
+      end
+  | YDPair _ _ => exists fl, classify (n_kind n) = KPair fl
+  | YDDoc _ => classify (n_kind n) = KDocument \/ classify (n_kind n) = KStream
+  | YDBad => True
+  end.
+Proof.
+  destruct n as [k f sb eb r c m ch]. rewrite denote_ynode_eq. cbn [n_kind]. destruct m; [exact I|]. rewrite ystep_class.
+  destruct (classify k) eqn:Ec.
+  - destruct (ykids_of content ch); [reflexivity|exact I].
+  - destruct (slice content sb eb) as [t|]; [|exact I]. destruct (plain_scalar_ok t && all_ytok (ykids_of content ch)); [|exact I]. now exists t.
+  - destruct (slice content sb eb) as [t|]; [|exact I]. destruct (dq_scalar_inner t) as [s|]; [|exact I]. destruct (all_ytok (ykids_of content ch)); [|exact I]. now exists s.
+  - destruct (slice content sb eb) as [t|]; [|exact I]. destruct (sq_scalar_inner t) as [s|]; [|exact I]. destruct (all_ytok (ykids_of content ch)); [|exact I]. now exists s.
+  - destruct (wrapped sb eb (ykids_of content ch)); exact I.
+  - destruct (ypairs_of (ykids_of content ch)) as [l|]; [|exact I]. destruct (ykeys_nodup (map fst l) && _); [|exact I]. now exists l.
+  - unfold ypair_of. destruct (ykids_of content ch) as [|[kn [[s0| |? ?|? ?]| | | |]] [|[cn [| | | |]] rest]]; try exact I.
+    destruct (_ && _); [|exact I]. destruct (ypair_rest rest) as [[v|]|]; try exact I; now exists fl.
+  - destruct (yvals_of (ykids_of content ch)) as [l|]; [|exact I]. now exists l.
+  - destruct (yvals_of (ykids_of content ch)) as [[|v [|v2 l]]|]; exact I.
+  - destruct (yvals_of (ykids_of content ch)) as [[|v [|v2 l]]|]; try exact I. now left.
+  - destruct (ydocs_of (ykids_of content ch)) as [[|v [|v2 l]]|]; try exact I. now right.
+  - exact I.
+Qed.
+Lemma is_wrapper_class n : is_wrapper n = true <-> classify (n_kind n) = KWrap.
+Proof.
+  unfold is_wrapper, kind_is. split.
+  - intros H. apply orb_true_iff in H as [H|H]; apply beq_eq in H; rewrite H; reflexivity.
+  - unfold classify. destruct (ytokish (n_kind n)); [discriminate|]. destruct (beq (n_kind n) yk_plain_scalar); [discriminate|].
+    destruct (beq (n_kind n) yk_dq_scalar); [discriminate|]. destruct (beq (n_kind n) yk_sq_scalar); [discriminate|].
+    destruct (beq (n_kind n) yk_flow_node || beq (n_kind n) yk_block_node) eqn:E; [intros _; reflexivity|].
+    repeat match goal with |- context [if ?b then _ else _] => destruct b end; discriminate.
+Qed.
+Lemma item_class n : kind_is yk_block_sequence_item n = true -> classify (n_kind n) = KItem.
+Proof. unfold kind_is. intros H. apply beq_eq in H. rewrite H. reflexivity. Qed.
+Lemma class_item n : classify (n_kind n) = KItem -> kind_is yk_block_sequence_item n = true.
+Proof.
+  unfold kind_is, classify. repeat match goal with |- context [if ?b then _ else _] => destruct b eqn:? end; try discriminate; intros _; try reflexivity; assumption.
+Qed.
+(* what a wrapper denotes is what its one value child denotes; that child is a scalar, a mapping or a sequence *)
+Lemma wrapper_inv content w v : is_wrapper w = true -> denote_ynode content w = YDVal v ->
+  exists pre c post, n_children w = pre ++ c :: post /\ Forall (ytok content) pre /\ Forall (ytok content) post
+  /\ denote_ynode content c = YDVal v
+  /\ match classify (n_kind c) with
+     | KPlain | KDq | KSq => exists s, v = YStr s
+     | KMap fl => exists l, v = YMap fl l
+     | KSeq fl => exists l, v = YSeq fl l
+     | _ => False
+     end.
+Proof.
+  intros Hw. pose proof (proj1 (is_wrapper_class w) Hw) as Hc. destruct w as [k f sb eb r c0 m ch]. cbn [n_kind n_children] in *.
+  rewrite denote_ynode_eq. destruct m; [discriminate|]. rewrite ystep_class, Hc.
+  destruct (wrapped sb eb (ykids_of content ch)) as [v'|] eqn:Ew; [|discriminate]. intros H. injection H as ->.
+  destruct (wrapped_inv _ _ _ _ _ Ew) as [pre [c [post [-> [Hp [Hq [Dc [Hnw [Hni _]]]]]]]]].
+  exists pre, c, post. split; [reflexivity|]. split; [exact Hp|]. split; [exact Hq|]. split; [exact Dc|].
+  pose proof (yden_class content c) as Y. rewrite Dc in Y.
+  destruct (classify (n_kind c)) eqn:Ecl; try exact Y.
+  - apply (proj2 (is_wrapper_class c)) in Ecl. congruence.
+  - apply class_item in Ecl. congruence.
+Qed.
+
+(* ---------- mapping pairs ---------- *)
+Definition neutral (content : bytes) (c : node) : Prop :=
+  ytok content c /\ beq (n_field c) yf_key = false /\ beq (n_field c) yf_value = false.
+Lemma neutral_forall content rest : forallb neutral_tok (ykids_of content rest) = true -> Forall (neutral content) rest.
+Proof.
+  induction rest as [|x t IH]; intros H; [constructor|]. cbn [ykids_of map forallb] in H. apply andb_true_iff in H as [H1 H2].
+  constructor; [|now apply IH]. unfold neutral_tok in H1. cbn [fst snd] in H1. unfold neutral, ytok.
+  destruct (denote_ynode content x); try discriminate. apply andb_true_iff in H1 as [A B]. apply negb_true_iff in A, B. now repeat split.
+Qed.
+Lemma ypair_rest_inv content rest : forall vo, ypair_rest (ykids_of content rest) = Some vo ->
+  match vo with
+  | None => Forall (neutral content) rest
+  | Some v => exists pre vn post, rest = pre ++ vn :: post /\ Forall (neutral content) pre /\ Forall (neutral content) post
+              /\ denote_ynode content vn = YDVal v /\ beq (n_field vn) yf_value = true /\ is_wrapper vn = true
+  end.
+Proof.
+  induction rest as [|x t IH]; intros vo H.
+  - cbn in H. injection H as <-. constructor.
+  - cbn [ykids_of map ypair_rest] in H. fold (ykids_of content t) in H.
+    destruct (denote_ynode content x) eqn:Dx.
+    + destruct (beq (n_field x) yf_value && is_wrapper x && forallb neutral_tok (ykids_of content t)) eqn:E; [|discriminate].
+      injection H as <-. apply andb_true_iff in E as [E E3]. apply andb_true_iff in E as [E1 E2].
+      exists [], x, t. split; [reflexivity|]. split; [constructor|]. split; [now apply neutral_forall|]. now repeat split.
+    + unfold neutral_tok in H. cbn [fst snd] in H. discriminate.
+    + unfold neutral_tok in H. cbn [fst snd] in H. discriminate.
+    + unfold neutral_tok in H. cbn [fst snd] in H.
+      destruct (negb (beq (n_field x) yf_key) && negb (beq (n_field x) yf_value)) eqn:E; [|discriminate].
+      apply andb_true_iff in E as [A B]. apply negb_true_iff in A, B.
+      assert (neutral content x) as Nx by (unfold neutral, ytok; now repeat split).
+      specialize (IH vo H). destruct vo as [v|].
+      * destruct IH as [pre [vn [post [-> [Hp [Hq Hr]]]]]]. exists (x :: pre), vn, post. split; [reflexivity|]. split; [now constructor|]. now split.
+      * now constructor.
+    + unfold neutral_tok in H. cbn [fst snd] in H. discriminate.
+Qed.
+Lemma ypair_inv content p k v : denote_ynode content p = YDPair k v ->
+  exists kn cn rest, n_children p = kn :: cn :: rest /\ beq (n_field kn) yf_key = true /\ is_wrapper kn = true
+  /\ denote_ynode content kn = YDVal (YStr k) /\ neutral content cn
+  /\ ((v = YNull /\ Forall (neutral content) rest)
+      \/ exists pre vn post, rest = pre ++ vn :: post /\ Forall (neutral content) pre /\ Forall (neutral content) post
+                             /\ denote_ynode content vn = YDVal v /\ beq (n_field vn) yf_value = true /\ is_wrapper vn = true).
+Proof.
+  intros H. pose proof (yden_class content p) as Y. rewrite H in Y. destruct Y as [fl Hc].
+  destruct p as [kd f sb eb r c m ch]. cbn [n_kind n_children] in *. rewrite denote_ynode_eq in H. destruct m; [discriminate|].
+  rewrite ystep_class, Hc in H. unfold ypair_of in H.
+  destruct ch as [|kn ch]; [discriminate|]. cbn [ykids_of map] in H. destruct (denote_ynode content kn) as [[s0| |? ?|? ?]| | | |] eqn:Dk; try discriminate.
+  destruct ch as [|cn rest]; [discriminate|]. cbn [map] in H. destruct (denote_ynode content cn) eqn:Dc; try discriminate.
+  fold (ykids_of content rest) in H.
+  destruct (beq (n_field kn) yf_key && is_wrapper kn && kind_is yk_colon cn && negb (beq (n_field cn) yf_key) && negb (beq (n_field cn) yf_value)) eqn:E; [|discriminate].
+  repeat (apply andb_true_iff in E as [E ?]). repeat match goal with Hn : negb _ = true |- _ => apply negb_true_iff in Hn end.
+  destruct (ypair_rest (ykids_of content rest)) as [vo|] eqn:Er; [|discriminate].
+  pose proof (ypair_rest_inv _ _ _ Er) as R.
+  exists kn, cn, rest. split; [reflexivity|]. split; [assumption|]. split; [assumption|].
+  destruct vo as [v'|]; injection H as <- <-.
+  - split; [exact Dk|]. split; [unfold neutral, ytok; now repeat split|]. right. exact R.
+  - split; [exact Dk|]. split; [unfold neutral, ytok; now repeat split|]. left. now split.
+Qed.
+
+(* ---------- children by field ---------- *)
+Lemma find_skip {A} (f : A -> bool) pre x post : Forall (fun a => f a = false) pre -> f x = true -> find f (pre ++ x :: post) = Some x.
+Proof. induction 1 as [|a t Ha _ IH]; intros Hx; cbn [app find]; [now rewrite Hx|]. rewrite Ha. now apply IH. Qed.
+Lemma find_none {A} (f : A -> bool) l : Forall (fun a => f a = false) l -> find f l = None.
+Proof. induction 1 as [|a t Ha _ IH]; [reflexivity|]. cbn [find]. now rewrite Ha. Qed.
+Lemma neutral_not_value content l : Forall (neutral content) l -> Forall (fun c => beq (n_field c) k_value = false) l.
+Proof. induction 1 as [|a t [_ [_ Ha]] _ IH]; constructor; assumption. Qed.
+Lemma pair_fields content p k v : denote_ynode content p = YDPair k v ->
+  exists kn, child_by_field k_key p = Some kn /\ is_wrapper kn = true /\ denote_ynode content kn = YDVal (YStr k)
+  /\ ((v = YNull /\ child_by_field k_value p = None)
+      \/ exists vn, child_by_field k_value p = Some vn /\ is_wrapper vn = true /\ denote_ynode content vn = YDVal v).
+Proof.
+  intros H. destruct (ypair_inv _ _ _ _ H) as [kn [cn [rest [Hch [Fk [Wk [Dk [Nc Hv]]]]]]]].
+  exists kn. unfold child_by_field. rewrite Hch. split.
+  - cbn [find]. change k_key with yf_key. now rewrite Fk.
+  - split; [exact Wk|]. split; [exact Dk|].
+    assert (beq (n_field kn) k_value = false) as Fkv by (apply beq_eq in Fk; rewrite Fk; reflexivity).
+    destruct Nc as [_ [_ Ncv]]. cbn [find]. rewrite Fkv. change (beq (n_field cn) k_value) with (beq (n_field cn) yf_value). rewrite Ncv.
+    destruct Hv as [[-> Hr]|[pre [vn [post [-> [Hp [Hq [Dv [Fv Wv]]]]]]]]].
+    + left. split; [reflexivity|]. apply find_none. now apply (neutral_not_value content).
+    + right. exists vn. split; [|now split]. apply find_skip; [now apply (neutral_not_value content)|exact Fv].
+Qed.
+Lemma wrapper_not_null content w : is_wrapper w = true -> denote_ynode content w <> YDVal YNull.
+Proof.
+  intros Hw H. destruct (wrapper_inv _ _ _ Hw H) as [pre [c [post [_ [_ [_ [_ Hc]]]]]]].
+  destruct (classify (n_kind c)); try contradiction; destruct Hc as [x Hx]; discriminate.
+Qed.
+
+(* ---------- pnpm-workspace.yaml: one catalog entry ---------- *)
+Definition nv (p : pkg) : bytes * bytes := (p_name p, p_version p).
+Lemma pnpm_entry_spec content p k v : denote_ynode content p = YDPair k v -> (v = YNull \/ exists s, v = YStr s) ->
+  exists pkgs, pnpm_entry content p = Some pkgs
+  /\ map nv pkgs = match v with YStr s => if beq s [] then [] else [(k, s)] | _ => [] end.
+Proof.
+  intros H Hv. destruct (pair_fields _ _ _ _ H) as [kn [Ck [Wk [Dk Hval]]]].
+  destruct (wrap_scalar _ _ _ Wk Dk) as [tk [Tk Rk]].
+  unfold pnpm_entry. rewrite Ck.
+  destruct Hval as [[-> Cv]|[vn [Cv [Wv Dv]]]].
+  - rewrite Cv. exists []. split; reflexivity.
+  - rewrite Cv. destruct Hv as [->|[s ->]]; [exfalso; exact (wrapper_not_null _ _ Wv Dv)|].
+    destruct (wrap_scalar _ _ _ Wv Dv) as [tv [Tv Rv]].
+    unfold node_plain_text. rewrite Tk. cbn [option_map bind]. rewrite (reading_name _ _ Rk). rewrite Tv. cbn [bind].
+    destruct (reading_value _ _ Rv) as [Ht [Hs [Hq Hne]]]. rewrite Ht. fold (quoted_test tv). cbv zeta.
+    rewrite Hs. cbn [bind]. destruct (beq s []) eqn:Es; [exists []; split; reflexivity|].
+    destruct (quoted_test tv) eqn:Eq.
+    + unfold quoted_pkg, pred_N. unfold node_text in Tv. pose proof (slice_length _ _ _ _ Tv) as Hl. specialize (Hq eq_refl).
+      destruct (n_eb vn =? 0) eqn:E0; [apply N.eqb_eq in E0; lia|]. cbn [bind option_map]. eexists. split; reflexivity.
+    + eexists. split; reflexivity.
+Qed.
+
+(* ---------- pnpm: catalogs ---------- *)
+Definition pnpm_mapping_step (content : bytes) (c : node) : option (list pkg) :=
+  if kind_is k_block_mapping c then pnpm_mapping content c
+  else if kind_is k_block_mapping_pair c then pnpm_entry content c else Some [].
+Lemma pnpm_mapping_eq content n : pnpm_mapping content n = concat_opt (pnpm_mapping_step content) (n_children n).
+Proof.
+  destruct n as [k f sb eb r c m ch]. cbn [pnpm_mapping n_children].
+  induction ch as [|x t IH]; [reflexivity|]. cbn [concat_opt]. rewrite <- IH. reflexivity.
+Qed.
+Lemma kind_tests n : kind_is k_block_mapping_pair n = match classify (n_kind n) with KPair false => true | _ => false end
+  /\ kind_is k_block_mapping n = match classify (n_kind n) with KMap false => true | _ => false end.
+Proof. exact (class_kinds (n_kind n)). Qed.
+Lemma tok_step content c : ytok content c -> pnpm_mapping_step content c = Some [].
+Proof.
+  intros H. destruct (ytok_node _ _ H) as [Hc _]. unfold pnpm_mapping_step. destruct (kind_tests c) as [-> ->]. now rewrite Hc.
+Qed.
+Lemma toks_steps content l : Forall (ytok content) l -> concat_opt (pnpm_mapping_step content) l = Some [].
+Proof. induction 1 as [|x t Hx _ IH]; [reflexivity|]. cbn [concat_opt]. now rewrite (tok_step _ _ Hx), IH. Qed.
+Lemma ypairs_cons content x t l : ypairs_of (ykids_of content (x :: t)) = Some l ->
+  (exists k v l', denote_ynode content x = YDPair k v /\ ypairs_of (ykids_of content t) = Some l' /\ l = (k, v) :: l')
+  \/ (denote_ynode content x = YDTok /\ ypairs_of (ykids_of content t) = Some l).
+Proof.
+  cbn [ykids_of map ypairs_of fold_right snd]. fold (ykids_of content t). fold (ypairs_of (ykids_of content t)).
+  destruct (denote_ynode content x) eqn:Ex; try discriminate.
+  - destruct (ypairs_of (ykids_of content t)) as [l'|]; [|discriminate]. intros H. injection H as <-. left. exists k, v, l'. repeat split.
+  - destruct (ypairs_of (ykids_of content t)) as [l'|]; [|discriminate]. intros H. injection H as <-. right. split; reflexivity.
+Qed.
+(* a block mapping node: its pairs are block pairs *)
+Lemma map_node_inv content n fl l : denote_ynode content n = YDVal (YMap fl l) -> (exists fl', classify (n_kind n) = KMap fl') ->
+  classify (n_kind n) = KMap fl /\ ypairs_of (ykids_of content (n_children n)) = Some l
+  /\ pairs_kind (if fl then yk_flow_pair else yk_block_mapping_pair) (ykids_of content (n_children n)) = true.
+Proof.
+  destruct n as [kd f sb eb r c m ch]. cbn [n_kind n_children]. rewrite denote_ynode_eq. destruct m; [discriminate|]. rewrite ystep_class.
+  intros H [fl' Hc]. rewrite Hc in H |- *.
+  destruct (ypairs_of (ykids_of content ch)) as [l'|] eqn:El; [|discriminate].
+  destruct (ykeys_nodup (map fst l') && pairs_kind (if fl' then yk_flow_pair else yk_block_mapping_pair) (ykids_of content ch)) eqn:E; [|discriminate].
+  injection H as <- <-. apply andb_true_iff in E as [_ E]. now repeat split.
+Qed.
+Definition entry_decl (e : bytes * yval) : list (bytes * bytes) :=
+  match snd e with YStr s => if beq s [] then [] else [(fst e, s)] | _ => [] end.
+Lemma block_pairs_entries content ch : forall l, ypairs_of (ykids_of content ch) = Some l ->
+  pairs_kind yk_block_mapping_pair (ykids_of content ch) = true ->
+  forallb (fun e : bytes * yval => match snd e with YStr _ | YNull => true | _ => false end) l = true ->
+  exists pkgs, concat_opt (pnpm_mapping_step content) ch = Some pkgs /\ map nv pkgs = flat_map entry_decl l.
+Proof.
+  induction ch as [|x t IH]; intros l Hl Hk Hs.
+  - cbn in Hl. injection Hl as <-. exists []. split; reflexivity.
+  - cbn [ykids_of map pairs_kind forallb fst snd] in Hk. fold (ykids_of content t) in Hk. apply andb_true_iff in Hk as [Hkx Hkt].
+    destruct (ypairs_cons _ _ _ _ Hl) as [[k [v [l' [Dx [Hl' ->]]]]]|[Dx Hl']].
+    + cbn [forallb snd] in Hs. apply andb_true_iff in Hs as [Hsx Hst].
+      destruct (IH l' Hl' Hkt Hst) as [p2 [E2 M2]]. rewrite Dx in Hkx.
+      assert (v = YNull \/ exists s, v = YStr s) as Hv by (destruct v; try discriminate; [right; eauto|now left]).
+      destruct (pnpm_entry_spec _ _ _ _ Dx Hv) as [p1 [E1 M1]].
+      cbn [concat_opt]. unfold pnpm_mapping_step at 1. destruct (kind_tests x) as [T1 T2].
+      unfold kind_is in Hkx. apply beq_eq in Hkx. assert (classify (n_kind x) = KPair false) as Hc by (rewrite Hkx; reflexivity).
+      rewrite T2, T1, Hc, E1, E2. exists (p1 ++ p2). split; [reflexivity|]. rewrite map_app, M1, M2. reflexivity.
+    + destruct (IH l Hl' Hkt Hs) as [p2 [E2 M2]]. cbn [concat_opt]. rewrite (tok_step _ _ Dx), E2. exists p2. split; [reflexivity|exact M2].
+Qed.
+(* the value node of a catalog key *)
+Lemma pnpm_mapping_wrapper content vn v : is_wrapper vn = true -> denote_ynode content vn = YDVal v ->
+  is_catalog v = true -> is_flow v = false ->
+  exists pkgs, pnpm_mapping content vn = Some pkgs /\ map nv pkgs = catalog_entries v.
+Proof.
+  intros Hw Hd Hc Hf. destruct (wrapper_inv _ _ _ Hw Hd) as [pre [c [post [Hch [Hp [Hq [Dc Hcl]]]]]]].
+  rewrite pnpm_mapping_eq, Hch.
+  assert (forall a b, concat_opt (pnpm_mapping_step content) (pre ++ a :: b) =
+                      match pnpm_mapping_step content a with Some x => match concat_opt (pnpm_mapping_step content) b with Some y => Some (x ++ y) | None => None end | None => None end) as Hcat.
+  { intros a b. clear -Hp. induction Hp as [|x t Hx _ IH]; [reflexivity|]. cbn [app concat_opt]. rewrite (tok_step _ _ Hx), IH.
+    destruct (pnpm_mapping_step content a); [|reflexivity]. destruct (concat_opt (pnpm_mapping_step content) b); reflexivity. }
+  rewrite Hcat, (toks_steps _ _ Hq). unfold pnpm_mapping_step. destruct (kind_tests c) as [T1 T2]. rewrite T2, T1.
+  destruct (classify (n_kind c)) eqn:Ecl; try contradiction.
+  - destruct Hcl as [s ->]. exists []. split; reflexivity.
+  - destruct Hcl as [s ->]. exists []. split; reflexivity.
+  - destruct Hcl as [s ->]. exists []. split; reflexivity.
+  - destruct Hcl as [l ->]. cbn [is_flow] in Hf. subst fl.
+    destruct (map_node_inv content c false l Dc (ex_intro _ false Ecl)) as [_ [Hl Hk]].
+    rewrite pnpm_mapping_eq. cbn [is_catalog] in Hc.
+    destruct (block_pairs_entries content (n_children c) l Hl Hk Hc) as [pkgs [E M]]. rewrite E. exists (pkgs ++ []). split; [reflexivity|].
+    rewrite app_nil_r, M. reflexivity.
+  - destruct Hcl as [l ->]. cbn [is_flow] in Hf. subst fl. exists []. split; reflexivity.
+Qed.
+
+(* ---------- mentions ---------- *)
+Lemma mentions_map k fl l : mentions k (YMap fl l) = existsb (fun e : bytes * yval => beq (fst e) k || mentions k (snd e)) l.
+Proof. cbn [mentions]. induction l as [|[k' x] t IH]; [reflexivity|]. cbn [existsb fst snd]. rewrite <- IH. reflexivity. Qed.
+Lemma mentions_seq k fl l : mentions k (YSeq fl l) = existsb (mentions k) l.
+Proof. cbn [mentions]. induction l as [|x t IH]; [reflexivity|]. cbn [existsb]. now rewrite <- IH. Qed.
+Definition quiet (K : list bytes) (v : yval) : Prop := forall k, In k K -> mentions k v = false.
+Definition quiet_den (K : list bytes) (d : yden) : Prop :=
+  match d with
+  | YDTok => True
+  | YDVal v | YDDoc v => quiet K v
+  | YDPair k v => existsb (beq k) K = false /\ quiet K v
+  | YDBad => False
+  end.
+Lemma quiet_map_inv K fl l : quiet K (YMap fl l) -> Forall (fun e : bytes * yval => existsb (beq (fst e)) K = false /\ quiet K (snd e)) l.
+Proof.
+  intros H. apply Forall_forall. intros e He. split.
+  - destruct (existsb (beq (fst e)) K) eqn:E; [|reflexivity]. apply existsb_exists in E as [k [Hk Hb]]. apply beq_eq in Hb. subst k.
+    specialize (H _ Hk). rewrite mentions_map in H. assert (existsb (fun e0 : bytes * yval => beq (fst e0) (fst e) || mentions (fst e) (snd e0)) l = true) as C.
+    { apply existsb_exists. exists e. split; [exact He|]. now rewrite beq_refl. }
+    congruence.
+  - intros k Hk. specialize (H _ Hk). rewrite mentions_map in H. destruct (mentions k (snd e)) eqn:E; [|reflexivity].
+    assert (existsb (fun e0 : bytes * yval => beq (fst e0) k || mentions k (snd e0)) l = true) as C.
+    { apply existsb_exists. exists e. split; [exact He|]. now rewrite E, orb_true_r. }
+    congruence.
+Qed.
+Lemma quiet_seq_inv K fl l : quiet K (YSeq fl l) -> Forall (quiet K) l.
+Proof.
+  intros H. apply Forall_forall. intros x Hx k Hk. specialize (H _ Hk). rewrite mentions_seq in H.
+  destruct (mentions k x) eqn:E; [|reflexivity]. assert (existsb (mentions k) l = true) as C by (apply existsb_exists; eauto). congruence.
+Qed.
+
+(* ---------- a walk that only reacts to block pairs with certain keys is silent where those keys do not occur ---------- *)
+From VL Require Import Proofs.CstProofs.
+Section Quiet.
+Variable content : bytes.
+Variable K : list bytes.
+Variable W : node -> option (list pkg).
+Hypothesis W_step : forall n,
+  (kind_is k_block_mapping_pair n = false
+   \/ exists kn key, child_by_field k_key n = Some kn /\ node_plain_text content kn = Some key /\ existsb (beq key) K = false) ->
+  W n = concat_opt W (n_children n).
+
+Lemma concat_quiet l : Forall (fun c => W c = Some []) l -> concat_opt W l = Some [].
+Proof. induction 1 as [|x t Hx _ IH]; [reflexivity|]. cbn [concat_opt]. now rewrite Hx, IH. Qed.
+Lemma yvals_quiet ch : forall vs, yvals_of (ykids_of content ch) = Some vs -> Forall (quiet K) vs -> Forall (fun c => quiet_den K (denote_ynode content c)) ch.
+Proof.
+  induction ch as [|x t IH]; intros vs H Hq; [constructor|].
+  cbn [ykids_of map yvals_of fold_right snd] in H. fold (ykids_of content t) in H. fold (yvals_of (ykids_of content t)) in H.
+  destruct (denote_ynode content x) eqn:Dx; try discriminate; destruct (yvals_of (ykids_of content t)) as [l'|] eqn:El; try discriminate; injection H as <-.
+  - inversion Hq; subst. constructor; [rewrite Dx; assumption|]. now apply (IH l').
+  - constructor; [rewrite Dx; exact I|]. now apply (IH l').
+Qed.
+Lemma ypairs_quiet ch : forall l, ypairs_of (ykids_of content ch) = Some l ->
+  Forall (fun e : bytes * yval => existsb (beq (fst e)) K = false /\ quiet K (snd e)) l -> Forall (fun c => quiet_den K (denote_ynode content c)) ch.
+Proof.
+  induction ch as [|x t IH]; intros l H Hq; [constructor|].
+  destruct (ypairs_cons _ _ _ _ H) as [[k [v [l' [Dx [Hl' ->]]]]]|[Dx Hl']].
+  - inversion Hq; subst. constructor; [rewrite Dx; assumption|]. now apply (IH l').
+  - constructor; [rewrite Dx; exact I|]. now apply (IH l).
+Qed.
+Lemma ydocs_quiet ch : forall vs, ydocs_of (ykids_of content ch) = Some vs -> Forall (quiet K) vs -> Forall (fun c => quiet_den K (denote_ynode content c)) ch.
+Proof.
+  induction ch as [|x t IH]; intros vs H Hq; [constructor|].
+  cbn [ykids_of map ydocs_of fold_right snd] in H. fold (ykids_of content t) in H. fold (ydocs_of (ykids_of content t)) in H.
+  destruct (denote_ynode content x) eqn:Dx; try discriminate; destruct (ydocs_of (ykids_of content t)) as [l'|] eqn:El; try discriminate; injection H as <-.
+  - inversion Hq; subst. constructor; [rewrite Dx; assumption|]. now apply (IH l').
+  - constructor; [rewrite Dx; exact I|]. now apply (IH l').
+Qed.
+Lemma toks_quiet l : Forall (ytok content) l -> Forall (fun c => quiet_den K (denote_ynode content c)) l.
+Proof. induction 1 as [|x t Hx _ IH]; constructor; [unfold ytok in Hx; rewrite Hx; exact I|exact IH]. Qed.
+Lemma neutrals_quiet l : Forall (neutral content) l -> Forall (fun c => quiet_den K (denote_ynode content c)) l.
+Proof. induction 1 as [|x t [Hx _] _ IH]; constructor; [unfold ytok in Hx; rewrite Hx; exact I|exact IH]. Qed.
+
+Theorem walk_quiet : forall n, quiet_den K (denote_ynode content n) -> W n = Some [].
+Proof.
+  induction n as [kd f sb eb r c m ch IHch] using node_ind'. intros Hq.
+  assert (Forall (fun c => quiet_den K (denote_ynode content c)) ch -> concat_opt W ch = Some []) as Hrec.
+  { intros Hall. apply concat_quiet. rewrite Forall_forall in IHch, Hall |- *. intros x Hx. apply IHch; [exact Hx|]. now apply Hall. }
+  set (n := Node kd f sb eb r c m ch) in *.
+  pose proof (yden_class content n) as Y.
+  destruct (denote_ynode content n) as [v|k v|v| |] eqn:Dn; cbn [quiet_den] in Hq; try contradiction.
+  - (* a value *)
+    assert (kind_is k_block_mapping_pair n = false) as Hk.
+    { destruct (kind_tests n) as [T _]. rewrite T. destruct (classify (n_kind n)) as [| | | | |fl|[|]|fl| | | |]; try reflexivity. contradiction. }
+    rewrite (W_step n (or_introl Hk)). change (n_children n) with ch. apply Hrec.
+    unfold n in Dn. rewrite denote_ynode_eq in Dn. destruct m; [discriminate|]. rewrite ystep_class in Dn. unfold n in Y. cbn [n_kind] in Y.
+    revert Y Dn. destruct (classify kd) eqn:Ec; intros Y Dn; cbv beta iota in Y; try contradiction.
+    + destruct (slice content sb eb) as [t|]; [|discriminate]. destruct (plain_scalar_ok t); [|discriminate]. cbn [andb] in Dn.
+      destruct (all_ytok (ykids_of content ch)) eqn:Ea; [|discriminate]. apply toks_quiet. now apply all_ytok_forall.
+    + destruct (slice content sb eb) as [t|]; [|discriminate]. destruct (dq_scalar_inner t); [|discriminate].
+      destruct (all_ytok (ykids_of content ch)) eqn:Ea; [|discriminate]. apply toks_quiet. now apply all_ytok_forall.
+    + destruct (slice content sb eb) as [t|]; [|discriminate]. destruct (sq_scalar_inner t); [|discriminate].
+      destruct (all_ytok (ykids_of content ch)) eqn:Ea; [|discriminate]. apply toks_quiet. now apply all_ytok_forall.
+    + destruct (wrapped sb eb (ykids_of content ch)) as [v'|] eqn:Ew; [|discriminate]. injection Dn as ->.
+      destruct (wrapped_inv _ _ _ _ _ Ew) as [pre [c0 [post [-> [Hp [Hpo [Dc _]]]]]]].
+      apply Forall_app. split; [now apply toks_quiet|]. constructor; [rewrite Dc; exact Hq|now apply toks_quiet].
+    + destruct (ypairs_of (ykids_of content ch)) as [l|] eqn:El; [|discriminate]. destruct (ykeys_nodup (map fst l) && _); [|discriminate].
+      injection Dn as <-. apply (ypairs_quiet ch l El). now apply (quiet_map_inv K fl).
+    + destruct (yvals_of (ykids_of content ch)) as [l|] eqn:El; [|discriminate]. injection Dn as <-.
+      apply (yvals_quiet ch l El). now apply (quiet_seq_inv K fl).
+    + destruct (yvals_of (ykids_of content ch)) as [[|v1 [|v2 l]]|] eqn:El; try discriminate; injection Dn as <-.
+      * apply (yvals_quiet ch [] El). constructor.
+      * apply (yvals_quiet ch [v1] El). constructor; [exact Hq|constructor].
+  - (* a pair *)
+    destruct Hq as [HkK Hqv]. destruct Y as [fl Hc].
+    destruct (ypair_inv _ _ _ _ Dn) as [kn [cn [rest [Hch [Fk [Wk [Dk [Nc Hv]]]]]]]].
+    assert (W n = concat_opt W (n_children n)) as ->.
+    { apply W_step. destruct (kind_tests n) as [T _]. rewrite T, Hc. destruct fl; [now left|]. right.
+      destruct (pair_fields _ _ _ _ Dn) as [kn' [Ck [Wk' [Dk' _]]]]. destruct (wrap_scalar _ _ _ Wk' Dk') as [tk [Tk Rk]].
+      exists kn', k. split; [exact Ck|]. split; [|exact HkK]. unfold node_plain_text. rewrite Tk. cbn [option_map]. now rewrite (reading_name _ _ Rk). }
+    change (n_children n) with ch. apply Hrec. change (n_children n) with ch in Hch. rewrite Hch.
+    constructor; [rewrite Dk; intros k0 _; reflexivity|]. constructor; [destruct Nc as [Nc _]; unfold ytok in Nc; rewrite Nc; exact I|].
+    destruct Hv as [[-> Hr]|[pre [vn [post [-> [Hp [Hpo [Dv _]]]]]]]].
+    + now apply neutrals_quiet.
+    + apply Forall_app. split; [now apply neutrals_quiet|]. constructor; [rewrite Dv; exact Hqv|now apply neutrals_quiet].
+  - (* a document / stream *)
+    assert (kind_is k_block_mapping_pair n = false) as Hk.
+    { destruct (kind_tests n) as [T _]. rewrite T. destruct Y as [-> | ->]; reflexivity. }
+    rewrite (W_step n (or_introl Hk)). change (n_children n) with ch. apply Hrec.
+    unfold n in Dn. rewrite denote_ynode_eq in Dn. destruct m; [discriminate|]. rewrite ystep_class in Dn. unfold n in Y. cbn [n_kind] in Y.
+    destruct Y as [Ec|Ec]; rewrite Ec in Dn.
+    + destruct (yvals_of (ykids_of content ch)) as [[|v1 [|v2 l]]|] eqn:El; try discriminate. injection Dn as <-.
+      apply (yvals_quiet ch [v1] El). constructor; [exact Hq|constructor].
+    + destruct (ydocs_of (ykids_of content ch)) as [[|v1 [|v2 l]]|] eqn:El; try discriminate. injection Dn as <-.
+      apply (ydocs_quiet ch [v1] El). constructor; [exact Hq|constructor].
+  - (* a token: no children *)
+    assert (kind_is k_block_mapping_pair n = false) as Hk.
+    { destruct (kind_tests n) as [T _]. rewrite T, Y. reflexivity. }
+    rewrite (W_step n (or_introl Hk)). destruct (ytok_node content n Dn) as [_ Hnil]. rewrite Hnil. reflexivity.
+Qed.
+End Quiet.
+
+(* ---------- pnpm: named catalogs ---------- *)
+Definition named_pair_step (content : bytes) (cp : node) : option (list pkg) :=
+  if kind_is k_block_mapping_pair cp then
+    match child_by_field k_value cp with Some v => pnpm_mapping content v | None => Some [] end
+  else Some [].
+Definition named_step (content : bytes) (c : node) : option (list pkg) :=
+  if kind_is k_block_mapping c then concat_opt (named_pair_step content) (n_children c) else Some [].
+Lemma pnpm_named_eq content n : pnpm_named content n = concat_opt (named_step content) (n_children n).
+Proof. reflexivity. Qed.
+Definition group_ok (g : bytes * yval) : bool := is_catalog (snd g) && negb (is_flow (snd g)).
+Lemma named_groups content ch : forall groups, ypairs_of (ykids_of content ch) = Some groups ->
+  pairs_kind yk_block_mapping_pair (ykids_of content ch) = true -> forallb group_ok groups = true ->
+  exists pkgs, concat_opt (named_pair_step content) ch = Some pkgs /\ map nv pkgs = flat_map (fun g : bytes * yval => catalog_entries (snd g)) groups.
+Proof.
+  induction ch as [|x t IH]; intros groups Hl Hk Hs.
+  - cbn in Hl. injection Hl as <-. exists []. split; reflexivity.
+  - cbn [ykids_of map pairs_kind forallb fst snd] in Hk. fold (ykids_of content t) in Hk. apply andb_true_iff in Hk as [Hkx Hkt].
+    destruct (ypairs_cons _ _ _ _ Hl) as [[k [v [l' [Dx [Hl' ->]]]]]|[Dx Hl']].
+    + cbn [forallb] in Hs. apply andb_true_iff in Hs as [Hsx Hst]. unfold group_ok in Hsx. cbn [snd] in Hsx. apply andb_true_iff in Hsx as [Hc Hf]. apply negb_true_iff in Hf.
+      destruct (IH l' Hl' Hkt Hst) as [p2 [E2 M2]]. rewrite Dx in Hkx. unfold kind_is in Hkx. apply beq_eq in Hkx.
+      assert (classify (n_kind x) = KPair false) as Hcl by (rewrite Hkx; reflexivity).
+      cbn [concat_opt]. unfold named_pair_step at 1. destruct (kind_tests x) as [T1 _]. rewrite T1, Hcl.
+      destruct (pair_fields _ _ _ _ Dx) as [kn [_ [_ [_ Hval]]]].
+      destruct Hval as [[-> Cv]|[vn [Cv [Wv Dv]]]].
+      * rewrite Cv, E2. exists p2. split; [reflexivity|]. cbn [flat_map snd catalog_entries app]. exact M2.
+      * rewrite Cv. destruct (pnpm_mapping_wrapper _ _ _ Wv Dv Hc Hf) as [p1 [E1 M1]]. rewrite E1, E2. exists (p1 ++ p2). split; [reflexivity|].
+        rewrite map_app, M1, M2. reflexivity.
+    + destruct (IH groups Hl' Hkt Hs) as [p2 [E2 M2]]. cbn [concat_opt]. unfold named_pair_step at 1. destruct (kind_tests x) as [T1 _].
+      destruct (ytok_node _ _ Dx) as [Hc _]. rewrite T1, Hc, E2. exists p2. split; [reflexivity|exact M2].
+Qed.
+Definition groups_decl (v : yval) : list (bytes * bytes) :=
+  match v with YMap _ groups => flat_map (fun g : bytes * yval => catalog_entries (snd g)) groups | _ => [] end.
+Definition groups_ok (v : yval) : bool := match v with YMap _ groups => forallb group_ok groups | _ => true end.
+Lemma named_toks content l : Forall (ytok content) l -> concat_opt (named_step content) l = Some [].
+Proof.
+  induction 1 as [|x t Hx _ IH]; [reflexivity|]. cbn [concat_opt]. unfold named_step at 1. destruct (kind_tests x) as [_ T2].
+  destruct (ytok_node _ _ Hx) as [Hc _]. now rewrite T2, Hc, IH.
+Qed.
+Lemma pnpm_named_wrapper content vn v : is_wrapper vn = true -> denote_ynode content vn = YDVal v ->
+  is_flow v = false -> groups_ok v = true ->
+  exists pkgs, pnpm_named content vn = Some pkgs /\ map nv pkgs = groups_decl v.
+Proof.
+  intros Hw Hd Hf Hg. destruct (wrapper_inv _ _ _ Hw Hd) as [pre [c [post [Hch [Hp [Hq [Dc Hcl]]]]]]].
+  rewrite pnpm_named_eq, Hch.
+  assert (forall a b, concat_opt (named_step content) (pre ++ a :: b) =
+                      match named_step content a with Some x => match concat_opt (named_step content) b with Some y => Some (x ++ y) | None => None end | None => None end) as Hcat.
+  { intros a b. clear -Hp. induction Hp as [|x t Hx _ IH]; [reflexivity|]. cbn [app concat_opt]. rewrite IH. unfold named_step at 1.
+    destruct (kind_tests x) as [_ T2]. destruct (ytok_node _ _ Hx) as [Hc _]. rewrite T2, Hc.
+    destruct (named_step content a); [|reflexivity]. destruct (concat_opt (named_step content) b); reflexivity. }
+  rewrite Hcat, (named_toks _ _ Hq). unfold named_step. destruct (kind_tests c) as [_ T2]. rewrite T2.
+  destruct (classify (n_kind c)) eqn:Ecl; try contradiction.
+  - destruct Hcl as [s ->]. exists []. split; reflexivity.
+  - destruct Hcl as [s ->]. exists []. split; reflexivity.
+  - destruct Hcl as [s ->]. exists []. split; reflexivity.
+  - destruct Hcl as [l ->]. cbn [is_flow] in Hf. subst fl.
+    destruct (map_node_inv content c false l Dc (ex_intro _ false Ecl)) as [_ [Hl Hk]]. cbn [groups_ok] in Hg.
+    destruct (named_groups content (n_children c) l Hl Hk Hg) as [pkgs [E M]]. rewrite E. exists (pkgs ++ []). split; [reflexivity|].
+    rewrite app_nil_r, M. reflexivity.
+  - destruct Hcl as [l ->]. cbn [is_flow] in Hf. subst fl. exists []. split; reflexivity.
+Qed.
+
+(* ---------- pnpm: the walk ---------- *)
+Lemma walk_pnpm_eq content n : walk_pnpm content n =
+  if kind_is k_block_mapping_pair n then
+    match child_by_field k_key n with
+    | Some kn => bind (node_plain_text content kn) (fun key =>
+          if beq key pnpm_catalog_key then match child_by_field k_value n with Some v => pnpm_mapping content v | None => Some [] end
+          else if beq key pnpm_catalogs_key then match child_by_field k_value n with Some v => pnpm_named content v | None => Some [] end
+          else concat_opt (walk_pnpm content) (n_children n))
+    | None => concat_opt (walk_pnpm content) (n_children n)
+    end
+  else concat_opt (walk_pnpm content) (n_children n).
+Proof.
+  destruct n as [k f sb eb r c m ch].
+  assert ((fix go (l : list node) : option (list pkg) :=
+             match l with
+             | [] => Some []
+             | c0 :: t => match walk_pnpm content c0, go t with Some a, Some b => Some (a ++ b) | _, _ => None end
+             end) ch = concat_opt (walk_pnpm content) ch) as Hgo.
+  { induction ch as [|x t IH]; [reflexivity|]. cbn [concat_opt]. now rewrite IH. }
+  cbn [walk_pnpm n_children]. rewrite Hgo. reflexivity.
+Qed.
+Definition pnpm_keys : list bytes := [w_catalog; w_catalogs].
+Lemma walk_pnpm_step content n :
+  (kind_is k_block_mapping_pair n = false
+   \/ exists kn key, child_by_field k_key n = Some kn /\ node_plain_text content kn = Some key /\ existsb (beq key) pnpm_keys = false) ->
+  walk_pnpm content n = concat_opt (walk_pnpm content) (n_children n).
+Proof.
+  intros H. rewrite walk_pnpm_eq. destruct H as [H|[kn [key [Ck [Tk Hk]]]]].
+  - now rewrite H.
+  - destruct (kind_is k_block_mapping_pair n); [|reflexivity]. rewrite Ck, Tk. cbn [bind].
+    unfold pnpm_keys in Hk. cbn [existsb] in Hk. apply orb_false_iff in Hk as [H1 H2]. apply orb_false_iff in H2 as [H2 _].
+    change pnpm_catalog_key with w_catalog. change pnpm_catalogs_key with w_catalogs. now rewrite H1, H2.
+Qed.
+Definition pnpm_quiet content := walk_quiet content pnpm_keys (walk_pnpm content) (walk_pnpm_step content).
+
+(* ---------- pnpm: the top-level mapping ---------- *)
+Definition top_decl (e : bytes * yval) : list (bytes * bytes) :=
+  if beq (fst e) w_catalog then catalog_entries (snd e)
+  else if beq (fst e) w_catalogs then groups_decl (snd e) else [].
+Definition top_ok (e : bytes * yval) : bool :=
+  if beq (fst e) w_catalog then is_catalog (snd e) && negb (is_flow (snd e))
+  else if beq (fst e) w_catalogs then negb (is_flow (snd e)) && groups_ok (snd e)
+  else negb (mentions_catalog (snd e)).
+Lemma quiet_catalog v : mentions_catalog v = false -> quiet pnpm_keys v.
+Proof.
+  unfold mentions_catalog. intros H k Hk. apply orb_false_iff in H as [H1 H2]. destruct Hk as [<-|[<-|[]]]; assumption.
+Qed.
+Lemma top_pairs content ch : forall top, ypairs_of (ykids_of content ch) = Some top ->
+  pairs_kind yk_block_mapping_pair (ykids_of content ch) = true -> forallb top_ok top = true ->
+  exists pkgs, concat_opt (walk_pnpm content) ch = Some pkgs /\ map nv pkgs = flat_map top_decl top.
+Proof.
+  induction ch as [|x t IH]; intros top Hl Hk Hs.
+  - cbn in Hl. injection Hl as <-. exists []. split; reflexivity.
+  - cbn [ykids_of map pairs_kind forallb fst snd] in Hk. fold (ykids_of content t) in Hk. apply andb_true_iff in Hk as [Hkx Hkt].
+    destruct (ypairs_cons _ _ _ _ Hl) as [[k [v [l' [Dx [Hl' ->]]]]]|[Dx Hl']].
+    + cbn [forallb] in Hs. apply andb_true_iff in Hs as [Hsx Hst].
+      destruct (IH l' Hl' Hkt Hst) as [p2 [Et M2]]. rewrite Dx in Hkx. unfold kind_is in Hkx. apply beq_eq in Hkx.
+      assert (classify (n_kind x) = KPair false) as Hcl by (rewrite Hkx; reflexivity).
+      cbn [concat_opt flat_map]. unfold top_decl at 1. unfold top_ok in Hsx. cbn [fst snd] in *.
+      destruct (pair_fields _ _ _ _ Dx) as [kn [Ck [Wk [Dk Hval]]]]. destruct (wrap_scalar _ _ _ Wk Dk) as [tk [Tk Rk]].
+      assert (node_plain_text content kn = Some k) as Hname by (unfold node_plain_text; rewrite Tk; cbn [option_map]; now rewrite (reading_name _ _ Rk)).
+      destruct (beq k w_catalog) eqn:E1; [|destruct (beq k w_catalogs) eqn:E2].
+      * apply andb_true_iff in Hsx as [Hc Hf]. apply negb_true_iff in Hf.
+        rewrite walk_pnpm_eq. destruct (kind_tests x) as [T1 _]. rewrite T1, Hcl, Ck, Hname. cbn [bind].
+        change pnpm_catalog_key with w_catalog. rewrite E1.
+        destruct Hval as [[-> Cv]|[vn [Cv [Wv Dv]]]].
+        -- rewrite Cv, Et. exists p2. split; [reflexivity|]. cbn [catalog_entries app]. exact M2.
+        -- rewrite Cv. destruct (pnpm_mapping_wrapper _ _ _ Wv Dv Hc Hf) as [p1 [Ep Mp]]. rewrite Ep, Et. exists (p1 ++ p2). split; [reflexivity|].
+           rewrite map_app, Mp, M2. reflexivity.
+      * apply andb_true_iff in Hsx as [Hf Hg]. apply negb_true_iff in Hf.
+        rewrite walk_pnpm_eq. destruct (kind_tests x) as [T1 _]. rewrite T1, Hcl, Ck, Hname. cbn [bind].
+        change pnpm_catalog_key with w_catalog. change pnpm_catalogs_key with w_catalogs. rewrite E1, E2.
+        destruct Hval as [[-> Cv]|[vn [Cv [Wv Dv]]]].
+        -- rewrite Cv. match goal with H : concat_opt (walk_pnpm content) t = Some p2 |- _ => rewrite H end. exists p2. split; [reflexivity|]. cbn [groups_decl app]. exact M2.
+        -- rewrite Cv. destruct (pnpm_named_wrapper _ _ _ Wv Dv Hf Hg) as [p1 [Ep Mp]]. rewrite Ep.
+           match goal with H : concat_opt (walk_pnpm content) t = Some p2 |- _ => rewrite H end. exists (p1 ++ p2). split; [reflexivity|].
+           rewrite map_app, Mp, M2. reflexivity.
+      * apply negb_true_iff in Hsx.
+        assert (walk_pnpm content x = Some []) as ->.
+        { apply pnpm_quiet. rewrite Dx. cbn [quiet_den]. split; [|now apply quiet_catalog]. unfold pnpm_keys. cbn [existsb]. now rewrite E1, E2. }
+        match goal with H : concat_opt (walk_pnpm content) t = Some p2 |- _ => rewrite H end. exists p2. split; [reflexivity|exact M2].
+    + destruct (IH top Hl' Hkt Hs) as [p2 [E2 M2]]. cbn [concat_opt].
+      assert (walk_pnpm content x = Some []) as -> by (apply pnpm_quiet; rewrite Dx; exact I).
+      rewrite E2. exists p2. split; [reflexivity|exact M2].
+Qed.
+
+(* ---------- descending to the top-level mapping ---------- *)
+Lemma yvals_single content ch : forall v, yvals_of (ykids_of content ch) = Some [v] ->
+  exists pre c post, ch = pre ++ c :: post /\ Forall (ytok content) pre /\ Forall (ytok content) post /\ denote_ynode content c = YDVal v.
+Proof.
+  induction ch as [|x t IH]; intros v H; [discriminate|].
+  cbn [ykids_of map yvals_of fold_right snd] in H. fold (ykids_of content t) in H. fold (yvals_of (ykids_of content t)) in H.
+  destruct (denote_ynode content x) eqn:Dx; try discriminate; destruct (yvals_of (ykids_of content t)) as [l'|] eqn:El; try discriminate.
+  - injection H as Hv Hl. subst l'. subst. exists [], x, t. split; [reflexivity|]. split; [constructor|]. split; [|exact Dx].
+    clear -El. revert El. induction t as [|y t' IHt]; intros El; [constructor|].
+    cbn [ykids_of map yvals_of fold_right snd] in El. fold (ykids_of content t') in El. fold (yvals_of (ykids_of content t')) in El.
+    destruct (denote_ynode content y) eqn:Dy; try discriminate; destruct (yvals_of (ykids_of content t')) as [l2|] eqn:El2; try discriminate.
+    injection El as ->. constructor; [exact Dy|now apply IHt].
+  - injection H as Hl. subst l'. destruct (IH v eq_refl) as [pre [c [post [-> [Hp [Hq Dc]]]]]]. exists (x :: pre), c, post. split; [reflexivity|]. split; [constructor; assumption|]. now split.
+Qed.
+Lemma ydocs_single content ch : forall v, ydocs_of (ykids_of content ch) = Some [v] ->
+  exists pre c post, ch = pre ++ c :: post /\ Forall (ytok content) pre /\ Forall (ytok content) post /\ denote_ynode content c = YDDoc v.
+Proof.
+  induction ch as [|x t IH]; intros v H; [discriminate|].
+  cbn [ykids_of map ydocs_of fold_right snd] in H. fold (ykids_of content t) in H. fold (ydocs_of (ykids_of content t)) in H.
+  destruct (denote_ynode content x) eqn:Dx; try discriminate; destruct (ydocs_of (ykids_of content t)) as [l'|] eqn:El; try discriminate.
+  - injection H as Hv Hl. subst l'. subst. exists [], x, t. split; [reflexivity|]. split; [constructor|]. split; [|exact Dx].
+    clear -El. revert El. induction t as [|y t' IHt]; intros El; [constructor|].
+    cbn [ykids_of map ydocs_of fold_right snd] in El. fold (ykids_of content t') in El. fold (ydocs_of (ykids_of content t')) in El.
+    destruct (denote_ynode content y) eqn:Dy; try discriminate; destruct (ydocs_of (ykids_of content t')) as [l2|] eqn:El2; try discriminate.
+    injection El as ->. constructor; [exact Dy|now apply IHt].
+  - injection H as Hl. subst l'. destruct (IH v eq_refl) as [pre [c [post [-> [Hp [Hq Dc]]]]]]. exists (x :: pre), c, post. split; [reflexivity|]. split; [constructor; assumption|]. now split.
+Qed.
+Lemma concat_mid {W : node -> option (list pkg)} pre c post pk :
+  Forall (fun x => W x = Some []) pre -> Forall (fun x => W x = Some []) post -> W c = Some pk -> concat_opt W (pre ++ c :: post) = Some pk.
+Proof.
+  intros Hp Hq Hc. induction Hp as [|x t Hx _ IH]; cbn [app concat_opt].
+  - rewrite Hc, (concat_quiet W post Hq). now rewrite app_nil_r.
+  - now rewrite Hx, IH.
+Qed.
+Lemma toks_walk_quiet content (K : list bytes) (W : node -> option (list pkg))
+  (step : forall n, (kind_is k_block_mapping_pair n = false
+                     \/ exists kn key, child_by_field k_key n = Some kn /\ node_plain_text content kn = Some key /\ existsb (beq key) K = false) ->
+                    W n = concat_opt W (n_children n)) l :
+  Forall (ytok content) l -> Forall (fun x => W x = Some []) l.
+Proof.
+  intros H. apply Forall_forall. intros x Hx. rewrite Forall_forall in H. apply (walk_quiet content K W step). specialize (H x Hx). unfold ytok in H. now rewrite H.
+Qed.
+Lemma not_pair_class n : (forall fl, classify (n_kind n) <> KPair fl) -> kind_is k_block_mapping_pair n = false.
+Proof. intros H. destruct (kind_tests n) as [T _]. rewrite T. destruct (classify (n_kind n)) as [| | | | |fl|[|]|fl| | | |]; try reflexivity. exfalso. now apply (H false). Qed.
+Lemma pnpm_top content : forall n top, denote_ynode content n = YDVal (YMap false top) -> forallb top_ok top = true ->
+  exists pkgs, walk_pnpm content n = Some pkgs /\ map nv pkgs = flat_map top_decl top.
+Proof.
+  induction n as [kd f sb eb r c m ch IHch] using node_ind'. intros top Dn Hok.
+  set (n := Node kd f sb eb r c m ch) in *. pose proof (yden_class content n) as Y. rewrite Dn in Y.
+  assert (kind_is k_block_mapping_pair n = false) as Hk.
+  { apply not_pair_class. intros fl E. rewrite E in Y. exact Y. }
+  rewrite (walk_pnpm_step content n (or_introl Hk)). change (n_children n) with ch.
+  unfold n in Dn. rewrite denote_ynode_eq in Dn. destruct m; [discriminate|]. rewrite ystep_class in Dn. unfold n in Y. cbn [n_kind] in Y.
+  revert Y Dn. destruct (classify kd) eqn:Ec; intros Y Dn; cbv beta iota in Y; try contradiction; try (destruct Y as [s Ys]; discriminate).
+  - destruct (wrapped sb eb (ykids_of content ch)) as [v'|] eqn:Ew; [|discriminate]. injection Dn as ->.
+    destruct (wrapped_inv _ _ _ _ _ Ew) as [pre [c0 [post [-> [Hp [Hq [Dc _]]]]]]].
+    rewrite Forall_forall in IHch. destruct (IHch c0 ltac:(apply in_or_app; right; now left) top Dc Hok) as [pk [E M]].
+    exists pk. split; [|exact M]. apply concat_mid; [now apply (toks_walk_quiet content pnpm_keys _ (walk_pnpm_step content))|now apply (toks_walk_quiet content pnpm_keys _ (walk_pnpm_step content))|exact E].
+  - destruct Y as [l Yl]. injection Yl as <- <-.
+    destruct (ypairs_of (ykids_of content ch)) as [l'|] eqn:El; [|discriminate].
+    destruct (ykeys_nodup (map fst l') && pairs_kind yk_block_mapping_pair (ykids_of content ch)) eqn:E; [|discriminate]. injection Dn as <-.
+    apply andb_true_iff in E as [_ E]. exact (top_pairs content ch l' El E Hok).
+  - destruct (yvals_of (ykids_of content ch)) as [[|v1 [|v2 l]]|] eqn:El; try discriminate. injection Dn as ->.
+    destruct (yvals_single _ _ _ El) as [pre [c0 [post [-> [Hp [Hq Dc]]]]]].
+    rewrite Forall_forall in IHch. destruct (IHch c0 ltac:(apply in_or_app; right; now left) top Dc Hok) as [pk [E M]].
+    exists pk. split; [|exact M]. apply concat_mid; [now apply (toks_walk_quiet content pnpm_keys _ (walk_pnpm_step content))|now apply (toks_walk_quiet content pnpm_keys _ (walk_pnpm_step content))|exact E].
+Qed.
+Lemma pnpm_doc content : forall n top, denote_ynode content n = YDDoc (YMap false top) -> forallb top_ok top = true ->
+  exists pkgs, walk_pnpm content n = Some pkgs /\ map nv pkgs = flat_map top_decl top.
+Proof.
+  induction n as [kd f sb eb r c m ch IHch] using node_ind'. intros top Dn Hok.
+  set (n := Node kd f sb eb r c m ch) in *. pose proof (yden_class content n) as Y. rewrite Dn in Y.
+  assert (kind_is k_block_mapping_pair n = false) as Hk.
+  { apply not_pair_class. intros fl E. destruct Y as [Y|Y]; rewrite E in Y; discriminate. }
+  rewrite (walk_pnpm_step content n (or_introl Hk)). change (n_children n) with ch.
+  unfold n in Dn. rewrite denote_ynode_eq in Dn. destruct m; [discriminate|]. rewrite ystep_class in Dn. unfold n in Y. cbn [n_kind] in Y.
+  destruct Y as [Ec|Ec]; rewrite Ec in Dn.
+  - destruct (yvals_of (ykids_of content ch)) as [[|v1 [|v2 l]]|] eqn:El; try discriminate. injection Dn as ->.
+    destruct (yvals_single _ _ _ El) as [pre [c0 [post [-> [Hp [Hq Dc]]]]]].
+    destruct (pnpm_top content c0 top Dc Hok) as [pk [E M]].
+    exists pk. split; [|exact M]. apply concat_mid; [now apply (toks_walk_quiet content pnpm_keys _ (walk_pnpm_step content))|now apply (toks_walk_quiet content pnpm_keys _ (walk_pnpm_step content))|exact E].
+  - destruct (ydocs_of (ykids_of content ch)) as [[|v1 [|v2 l]]|] eqn:El; try discriminate. injection Dn as ->.
+    destruct (ydocs_single _ _ _ El) as [pre [c0 [post [-> [Hp [Hq Dc]]]]]].
+    rewrite Forall_forall in IHch. destruct (IHch c0 ltac:(apply in_or_app; right; now left) top Dc Hok) as [pk [E M]].
+    exists pk. split; [|exact M]. apply concat_mid; [now apply (toks_walk_quiet content pnpm_keys _ (walk_pnpm_step content))|now apply (toks_walk_quiet content pnpm_keys _ (walk_pnpm_step content))|exact E].
+Qed.
+Theorem pnpm_exact content root v :
+  denote_yaml content root = Some v -> pnpm_shape_ok v = true -> pnpm_known v = false ->
+  exists pkgs, walk_pnpm content root = Some pkgs /\ map nv pkgs = declared_pnpm v.
+Proof.
+  unfold denote_yaml. intros H Hs Hk. destruct (denote_ynode content root) eqn:Dr; try discriminate. injection H as ->.
+  destruct v as [s| |fl top|fl l].
+  - exists []. split; [|reflexivity]. apply pnpm_quiet. rewrite Dr. intros k _. reflexivity.
+  - exists []. split; [|reflexivity]. apply pnpm_quiet. rewrite Dr. intros k _. reflexivity.
+  - cbn [pnpm_known] in Hk. apply orb_false_iff in Hk as [-> Hk]. cbn [pnpm_shape_ok] in Hs.
+    apply (pnpm_doc content root top Dr). apply forallb_forall. intros e He.
+    rewrite forallb_forall in Hs. specialize (Hs e He).
+    assert ((if beq (fst e) w_catalog then is_flow (snd e)
+             else if beq (fst e) w_catalogs then is_flow (snd e) || match snd e with YMap _ groups => existsb (fun g : bytes * yval => is_flow (snd g)) groups | _ => false end
+             else mentions_catalog (snd e)) = false) as Hke.
+    { apply not_true_is_false. intros E. match type of Hk with existsb ?f top = false => assert (existsb f top = true) as C by (apply existsb_exists; exists e; split; [exact He|exact E]) end. congruence. }
+    unfold top_ok. destruct (beq (fst e) w_catalog); [now rewrite Hs, Hke|]. destruct (beq (fst e) w_catalogs); [|now rewrite Hke].
+    apply orb_false_iff in Hke as [Hf Hg]. rewrite Hf. cbn [negb andb]. unfold groups_ok. destruct (snd e) as [s| |fl2 groups|fl2 l2]; try reflexivity.
+    apply forallb_forall. intros g Hgin. rewrite forallb_forall in Hs. unfold group_ok. rewrite (Hs g Hgin). cbn [andb].
+    destruct (is_flow (snd g)) eqn:Eg; [|reflexivity]. assert (existsb (fun g0 : bytes * yval => is_flow (snd g0)) groups = true) as C by (apply existsb_exists; eauto). congruence.
+  - cbn [pnpm_known] in Hk. exists []. split; [|reflexivity]. apply pnpm_quiet. rewrite Dr. now apply quiet_catalog.
 Qed.
